@@ -235,11 +235,13 @@ class Prog:
         """globs: [(type, name)] ; funcs: [Func] ; main: Block ; quals: {name: 'superchip'...}"""
         self.pid, self.globs, self.funcs, self.main, self.quals, self.pre = pid, globs, funcs, main, quals or {}, pre
         self.tags = set()
+        self.inits = {}          # name -> int : const globals with an initialiser
     def c(self):
         s = self.pre
         for t, n in self.globs:
             q = self.quals.get(n)
-            s += (q + ' ' if q else '') + ctype(t, n) + ';\n'
+            if n in self.inits: s += 'const ' + ctype(t, n) + ' = %d;\n' % self.inits[n]
+            else: s += (q + ' ' if q else '') + ctype(t, n) + ';\n'
         for f in self.funcs: s += f.c()
         s += 'void main()\n' + self.main.c(0)
         return s
